@@ -326,7 +326,7 @@ def register(reg):
     @reg.contract
     class Assign(Contract):
         key = ASSIGN
-        props = ("C01", "C04", "C06", "C07", "C08", "C09", "C10", "C15", "C17")
+        props = ("C01", "C04", "C05", "C06", "C07", "C08", "C09", "C10", "C15", "C17")
         suspends = False
         result_kind = "seq:ref:" + CI
         modifies = ("Pool._connections", "PR.connection", "Evt.flag", "CI.origin", "CI.idle", "CI.closed", "CI.expired", "CI.avail")
